@@ -139,11 +139,14 @@ def extract_region(path, fn_name, impl_of, from_anchor, to_anchor, from_nth=0, t
     a, b, h = find_item(src, "fn", fn_name, impl_of)
     first_line = src.count("\n", 0, a) + 1
     lines = src[a:b].split("\n")
-    hits = [i for i, l in enumerate(lines) if from_anchor in l]
+    def _m(anchor, l):
+        # "=text" matches a line whose stripped text equals `text`; otherwise substring match
+        return l.strip() == anchor[1:] if anchor.startswith("=") else anchor in l
+    hits = [i for i, l in enumerate(lines) if _m(from_anchor, l)]
     if len(hits) <= from_nth:
         raise ExtractError("region start anchor %r (occurrence %d) not found in %s" % (from_anchor, from_nth, fn_name))
     i0 = hits[from_nth]
-    hits2 = [i for i, l in enumerate(lines) if i >= i0 and to_anchor in l]
+    hits2 = [i for i, l in enumerate(lines) if i >= i0 and _m(to_anchor, l)]
     if len(hits2) <= to_nth:
         raise ExtractError("region end anchor %r (occurrence %d) not found after the start anchor in %s" % (to_anchor, to_nth, fn_name))
     i1 = hits2[to_nth]
